@@ -215,4 +215,283 @@ theorem Struct.count_color {b : Board} (h : Struct b) (c : Color) :
   intro s _
   exact h.any_color s c
 
+/-! ### castling rights are backed by king and rook -/
+
+theorem Struct.has_iff {b : Board} (h : Struct b) (s : Sq) (p : Piece) (c : Color) :
+    b.abs.has s p c = true ↔ (b.pieces p &&& b.colorCombined c).getLsbD s.val = true := by
+  unfold Pos.has
+  rw [abs_board, beq_iff_eq, h.content_some_iff, BitVec.getLsbD_and, Bool.and_eq_true]
+
+theorem mkSq_ne_of_file {r : Fin 8} {f g : Fin 8} (h : f ≠ g) : (mkSq r f).val ≠ (mkSq r g).val := by
+  unfold mkSq
+  intro he
+  apply h
+  apply Fin.ext
+  simp only at he
+  omega
+
+theorem unmovedRooks_bit_ks (cr : CastleRights) (c : Color) (h : cr.ks = true) :
+    (cr.unmovedRooks c).getLsbD (mkSq c.backrank 7).val = true := by
+  unfold CastleRights.unmovedRooks BB.set
+  rw [h]
+  cases cr.qs
+  · exact BB.getLsbD_ofSq_self _
+  · simp only
+    rw [BitVec.getLsbD_xor, BB.getLsbD_ofSq_self, BB.getLsbD_ofSq,
+      decide_eq_false (mkSq_ne_of_file (by decide))]
+    rfl
+
+theorem unmovedRooks_bit_qs (cr : CastleRights) (c : Color) (h : cr.qs = true) :
+    (cr.unmovedRooks c).getLsbD (mkSq c.backrank 0).val = true := by
+  unfold CastleRights.unmovedRooks BB.set
+  rw [h]
+  cases cr.ks
+  · exact BB.getLsbD_ofSq_self _
+  · simp only
+    rw [BitVec.getLsbD_xor, BB.getLsbD_ofSq_self, BB.getLsbD_ofSq,
+      decide_eq_false (mkSq_ne_of_file (by decide))]
+    rfl
+
+theorem and_eq_self_bit {u x : BB} (h : u &&& x = u) (i : Nat) (hu : u.getLsbD i = true) : x.getLsbD i = true := by
+  have : (u &&& x).getLsbD i = true := by rw [h]; exact hu
+  rw [BitVec.getLsbD_and, Bool.and_eq_true] at this
+  exact this.2
+
+/-- a rook of colour `c` stands on the home square of every right `c` still has (no table involved) -/
+theorem SaneFacts.rook_home {T : Tables} {b : Board} (hf : SaneFacts T b) (hs : Struct b) (c : Color) :
+    ((b.castleRights c).ks = true → b.abs.has (mkSq c.backrank 7) .rook c = true) ∧
+    ((b.castleRights c).qs = true → b.abs.has (mkSq c.backrank 0) .rook c = true) := by
+  have hr := hf.rooks c
+  rw [BitVec.and_assoc] at hr
+  constructor
+  · intro h
+    rw [hs.has_iff]
+    exact and_eq_self_bit hr _ (unmovedRooks_bit_ks _ c h)
+  · intro h
+    rw [hs.has_iff]
+    exact and_eq_self_bit hr _ (unmovedRooks_bit_qs _ c h)
+
+theorem mkSq_fileN (r f : Fin 8) : (mkSq r f).fileN = f.val := by
+  unfold mkSq Sq.fileN; simp only; omega
+theorem mkSq_rankN (r f : Fin 8) : (mkSq r f).rankN = r.val := by
+  unfold mkSq Sq.rankN; simp only; omega
+theorem mkSq_getRank (r f : Fin 8) : (mkSq r f).getRank = r := by
+  apply Fin.ext; unfold mkSq Sq.getRank; simp only; omega
+theorem mkSq_getFile (r f : Fin 8) : (mkSq r f).getFile = f := by
+  apply Fin.ext; unfold mkSq Sq.getFile; simp only; omega
+
+/-- with correct `FILES` / `RANKS` tables the king of a side that has any right stands on its home square -/
+theorem SaneFacts.king_home {T : Tables} (hT : TablesOK T) {b : Board} (hf : SaneFacts T b) (hs : Struct b)
+    (c : Color) (h : (b.castleRights c).ks = true ∨ (b.castleRights c).qs = true) :
+    b.abs.has (mkSq c.backrank 4) .king c = true := by
+  rw [hs.has_iff]
+  rcases hf.kinghome c with hn | hk
+  · rw [hn] at h
+    rcases h with h | h <;> cases h
+  · show (b.kings &&& b.colorCombined c).getLsbD _ = true
+    rw [hk, hT.files, hT.ranks, BitVec.getLsbD_and, mem_files, mem_ranks, mkSq_fileN, mkSq_rankN]
+    simp
+
+theorem homeSq_king (c : Color) : homeSq c 4 = some (mkSq c.backrank 4) := by cases c <;> rfl
+theorem homeSq_rook_h (c : Color) : homeSq c 7 = some (mkSq c.backrank 7) := by cases c <;> rfl
+theorem homeSq_rook_a (c : Color) : homeSq c 0 = some (mkSq c.backrank 0) := by cases c <;> rfl
+
+/-! ### the recorded en-passant square -/
+
+theorem SaneFacts.ep_pawn {T : Tables} {b : Board} (hf : SaneFacts T b) (hs : Struct b) (q : Sq)
+    (h : b.ep = some q) : b.abs.has q .pawn b.stm.other = true := by
+  rw [hs.has_iff]
+  exact (and_ofSq_ne_zero_iff _ _).mp (hf.ep q h)
+
+/-- `try_from` only ever proposes the square on the fourth rank of the side that just moved -/
+theorem tryFrom_ep_rank {T : Tables} {bd : Builder} {b : Board} (h : Board.tryFrom T bd = some b) (q : Sq)
+    (hq : b.ep = some q) : q.getRank = b.stm.other.fourthRank ∧ bd.epFile = some q.getFile := by
+  obtain ⟨_, _, hstm, _, _, hep, _⟩ := tryFrom_spec T bd b h
+  rw [hep] at hq
+  unfold Builder.getEnPassant at hq
+  cases hf : bd.epFile with
+  | none => rw [hf] at hq; cases hq
+  | some f =>
+    rw [hf] at hq
+    simp only [Option.map_some] at hq
+    split at hq
+    · injection hq with hq
+      subst hq
+      rw [mkSq_getRank, mkSq_getFile, hstm]
+      exact ⟨rfl, rfl⟩
+    · cases hq
+
+/-! ### capacity of the move list -/
+
+set_option maxRecDepth 100000 in
+/-- at most two squares of one rank lie on the files adjacent to a given file -/
+theorem rank_adj_popcnt : ∀ r f : Fin 8, (Geom.ranks r &&& Geom.adjFiles f).popcnt ≤ 2 := by decide +kernel
+
+/-- the source set of the en-passant loop has at most two squares (needs the real `RANKS`/`ADJACENT_FILES`) -/
+theorem epSources_popcnt {T : Tables} (hT : TablesOK T) (r f : Fin 8) (pcs : BB) :
+    (T.ranks r &&& T.adjFiles f &&& pcs).popcnt ≤ 2 := by
+  rw [hT.ranks, hT.adjFiles]
+  exact Nat.le_trans (BB.popcnt_and_le_left _ _) (rank_adj_popcnt r f)
+
+/-- the men of one colour, split by kind -/
+theorem Struct.kinds_popcnt_le {b : Board} (h : Struct b) (c : Color) :
+    (b.pawns &&& b.colorCombined c).popcnt + (b.knights &&& b.colorCombined c).popcnt +
+    (b.bishops &&& b.colorCombined c).popcnt + (b.rooks &&& b.colorCombined c).popcnt +
+    (b.queens &&& b.colorCombined c).popcnt + (b.kings &&& b.colorCombined c).popcnt ≤ (b.colorCombined c).popcnt := by
+  simp only [BB.popcnt_eq_countP]
+  apply countP_six
+  intro s _
+  simp only [BitVec.getLsbD_and]
+  have d := h.piece_disj s.val
+  have d1 := d .pawn .knight (by decide); have d2 := d .pawn .bishop (by decide)
+  have d3 := d .pawn .rook (by decide); have d4 := d .pawn .queen (by decide)
+  have d5 := d .pawn .king (by decide); have d6 := d .knight .bishop (by decide)
+  have d7 := d .knight .rook (by decide); have d8 := d .knight .queen (by decide)
+  have d9 := d .knight .king (by decide); have d10 := d .bishop .rook (by decide)
+  have d11 := d .bishop .queen (by decide); have d12 := d .bishop .king (by decide)
+  have d13 := d .rook .queen (by decide); have d14 := d .rook .king (by decide)
+  have d15 := d .queen .king (by decide)
+  simp only [Board.pbit, Board.pieces] at d1 d2 d3 d4 d5 d6 d7 d8 d9 d10 d11 d12 d13 d14 d15
+  revert d1 d2 d3 d4 d5 d6 d7 d8 d9 d10 d11 d12 d13 d14 d15
+  cases (b.colorCombined c).getLsbD s.val <;> cases b.pawns.getLsbD s.val <;> cases b.knights.getLsbD s.val <;>
+    cases b.bishops.getLsbD s.val <;> cases b.rooks.getLsbD s.val <;> cases b.queens.getLsbD s.val <;>
+    cases b.kings.getLsbD s.val <;> simp
+
+namespace MoveGen
+
+theorem pushIf_length_le (l : List Entry) (e : Entry) : (pushIf l e).length ≤ l.length + 1 := by
+  unfold pushIf
+  split
+  · rw [List.length_append]; exact Nat.le_refl _
+  · exact Nat.le_succ _
+
+/-- a loop that appends at most one entry per iteration -/
+theorem foldl_length_le {α : Type} (f : List Entry → α → List Entry)
+    (hf : ∀ l a, (f l a).length ≤ l.length + 1) (xs : List α) :
+    ∀ l, (xs.foldl f l).length ≤ l.length + xs.length := by
+  induction xs with
+  | nil => intro l; exact Nat.le_refl _
+  | cons a as ih =>
+    intro l
+    rw [List.foldl_cons, List.length_cons]
+    have h1 := ih (f l a)
+    have h2 := hf l a
+    omega
+
+/-- a loop over the squares of a bitboard that appends at most one entry per square -/
+theorem foldl_toList_length_le (f : List Entry → Sq → List Entry)
+    (hf : ∀ l a, (f l a).length ≤ l.length + 1) (x : BB) (l : List Entry) :
+    (x.toList.foldl f l).length ≤ l.length + x.popcnt := by
+  rw [← BB.toList_length]
+  exact foldl_length_le f hf _ l
+
+theorem legalsGeneric_length (T : Tables) (p : Piece) (ic : Bool) (l : List Entry) (b : Board) (mask : BB) :
+    (legalsGeneric T p ic l b mask).length ≤ l.length + (b.pieces p &&& b.colorCombined b.stm).popcnt := by
+  unfold legalsGeneric
+  simp only []
+  have hsplit := BB.popcnt_split (b.pieces p &&& b.colorCombined b.stm) b.pinned
+  split
+  · refine Nat.le_trans (foldl_toList_length_le _ (fun l a => pushIf_length_le _ _) _ _) ?_
+    have h1 := foldl_toList_length_le (fun l src =>
+      pushIf l ⟨src, pseudoLegals T p src b.stm b.combined mask &&& checkMask T b ic, false⟩)
+      (fun l a => pushIf_length_le _ _) ((b.pieces p &&& b.colorCombined b.stm) &&& ~~~b.pinned) l
+    omega
+  · refine Nat.le_trans (foldl_toList_length_le _ (fun l a => pushIf_length_le _ _) _ _) ?_
+    omega
+
+theorem legalsKnight_length (T : Tables) (ic : Bool) (l : List Entry) (b : Board) (mask : BB) :
+    (legalsKnight T ic l b mask).length ≤ l.length + (b.knights &&& b.colorCombined b.stm).popcnt := by
+  unfold legalsKnight
+  simp only []
+  have hle := BB.popcnt_and_le_left (b.knights &&& b.colorCombined b.stm) (~~~b.pinned)
+  split <;>
+  · refine Nat.le_trans (foldl_toList_length_le _ (fun l a => pushIf_length_le _ _) _ _) ?_
+    omega
+
+theorem legalsKing_length (T : Tables) (ic : Bool) (l : List Entry) (b : Board) (mask : BB) :
+    (legalsKing T ic l b mask).length ≤ l.length + 1 := by
+  unfold legalsKing
+  exact pushIf_length_le _ _
+
+/-- the pawn loops: one entry per unpinned pawn, one per pinned pawn, and one per en-passant source -/
+theorem legalsPawn_length_ep (T : Tables) (ic : Bool) (l : List Entry) (b : Board) (mask : BB) :
+    (legalsPawn T ic l b mask).length ≤ l.length + (b.pawns &&& b.colorCombined b.stm).popcnt +
+      (match b.ep with
+       | none => 0
+       | some e => (T.ranks e.getRank &&& T.adjFiles e.getFile &&& (b.pawns &&& b.colorCombined b.stm)).popcnt) := by
+  unfold legalsPawn
+  simp only []
+  have hsplit := BB.popcnt_split (b.pawns &&& b.colorCombined b.stm) b.pinned
+  have h1 := foldl_toList_length_le (fun l src =>
+      pushIf l ⟨src, pseudoLegals T .pawn src b.stm b.combined mask &&& checkMask T b ic,
+        src.getRank = b.stm.seventhRank⟩)
+      (fun l a => pushIf_length_le _ _) ((b.pawns &&& b.colorCombined b.stm) &&& ~~~b.pinned) l
+  have h2 : (if (!ic) = true then
+      ((b.pawns &&& b.colorCombined b.stm) &&& b.pinned).toList.foldl (fun l src =>
+        pushIf l ⟨src, pseudoLegals T .pawn src b.stm b.combined mask &&& T.line (b.kingSquare b.stm) src,
+          src.getRank = b.stm.seventhRank⟩)
+        (((b.pawns &&& b.colorCombined b.stm) &&& ~~~b.pinned).toList.foldl (fun l src =>
+          pushIf l ⟨src, pseudoLegals T .pawn src b.stm b.combined mask &&& checkMask T b ic,
+            src.getRank = b.stm.seventhRank⟩) l)
+      else (((b.pawns &&& b.colorCombined b.stm) &&& ~~~b.pinned).toList.foldl (fun l src =>
+          pushIf l ⟨src, pseudoLegals T .pawn src b.stm b.combined mask &&& checkMask T b ic,
+            src.getRank = b.stm.seventhRank⟩) l)).length ≤
+      l.length + (b.pawns &&& b.colorCombined b.stm).popcnt := by
+    split
+    · refine Nat.le_trans (foldl_toList_length_le _ (fun l a => pushIf_length_le _ _) _ _) ?_
+      omega
+    · omega
+  cases b.ep with
+  | none => exact h2
+  | some e =>
+    simp only []
+    refine Nat.le_trans (foldl_toList_length_le _ ?_ _ _) ?_
+    · intro l a
+      split
+      · rw [List.length_append]; exact Nat.le_refl _
+      · exact Nat.le_succ _
+    · omega
+
+theorem legalsPawn_length {T : Tables} (hT : TablesOK T) (ic : Bool) (l : List Entry) (b : Board) (mask : BB) :
+    (legalsPawn T ic l b mask).length ≤ l.length + (b.pawns &&& b.colorCombined b.stm).popcnt + 2 := by
+  refine Nat.le_trans (legalsPawn_length_ep T ic l b mask) ?_
+  cases b.ep with
+  | none => exact Nat.le_add_right _ _
+  | some e => exact Nat.add_le_add_left (epSources_popcnt hT _ _ _) _
+
+/-- **capacity**: a board with disjoint piece boards, at most 16 men of the side to move, one of them a
+king, fills at most 18 slots of the move list -/
+theorem enumerate_length {T : Tables} (hT : TablesOK T) {b : Board} (hs : Struct b)
+    (hmen : (b.colorCombined b.stm).popcnt ≤ 16) (hk : 1 ≤ (b.kings &&& b.colorCombined b.stm).popcnt) :
+    (enumerate T b).length ≤ 18 := by
+  have hsum := hs.kinds_popcnt_le b.stm
+  have hg : ∀ (ic : Bool),
+      (legalsKing T ic (legalsGeneric T .queen ic (legalsGeneric T .rook ic (legalsGeneric T .bishop ic
+        (legalsKnight T ic (legalsPawn T ic [] b (~~~(b.colorCombined b.stm))) b (~~~(b.colorCombined b.stm)))
+          b (~~~(b.colorCombined b.stm))) b (~~~(b.colorCombined b.stm))) b (~~~(b.colorCombined b.stm)))
+          b (~~~(b.colorCombined b.stm))).length ≤ 18 := by
+    intro ic
+    have h1 := legalsPawn_length hT ic [] b (~~~(b.colorCombined b.stm))
+    generalize legalsPawn T ic [] b (~~~(b.colorCombined b.stm)) = l1 at h1 ⊢
+    have h2 := legalsKnight_length T ic l1 b (~~~(b.colorCombined b.stm))
+    generalize legalsKnight T ic l1 b (~~~(b.colorCombined b.stm)) = l2 at h2 ⊢
+    have h3 := legalsGeneric_length T .bishop ic l2 b (~~~(b.colorCombined b.stm))
+    generalize legalsGeneric T .bishop ic l2 b (~~~(b.colorCombined b.stm)) = l3 at h3 ⊢
+    have h4 := legalsGeneric_length T .rook ic l3 b (~~~(b.colorCombined b.stm))
+    generalize legalsGeneric T .rook ic l3 b (~~~(b.colorCombined b.stm)) = l4 at h4 ⊢
+    have h5 := legalsGeneric_length T .queen ic l4 b (~~~(b.colorCombined b.stm))
+    generalize legalsGeneric T .queen ic l4 b (~~~(b.colorCombined b.stm)) = l5 at h5 ⊢
+    have h6 := legalsKing_length T ic l5 b (~~~(b.colorCombined b.stm))
+    simp only [Board.pieces, List.length_nil] at h1 h2 h3 h4 h5 h6
+    omega
+  unfold enumerate
+  simp only []
+  split
+  · exact hg false
+  · split
+    · exact hg true
+    · exact Nat.le_trans (legalsKing_length T true [] b _) (by decide)
+
+end MoveGen
+
 end Chess
